@@ -130,6 +130,7 @@ func splitWorker(w *vf.Worker) {
 										text = text[len(pre):]
 									}
 									got, docs, bad := f.parse(text, keys)
+									got = idsOf(got)
 									if bad != "" || docs > 1 || strings.Join(got, ",") != strings.Join(ids, ",") {
 										w.Violation(fmt.Sprintf("split-records[%s]:%s", f.name, label), fmt.Sprintf("%s: part %s holds %v (documents=%d, %s), routed were %v", label, part, got, docs, bad, ids), rp)
 										continue
@@ -269,7 +270,8 @@ func splitWorker(w *vf.Worker) {
 				text = text[len(pre):]
 			}
 			got, docs, bad := f.parse(text, keys)
-			if !res.OK() || bad != "" || docs > 1 || strings.Join(got, ",") != "1,2,3" {
+			// the tee file holds the records as they were when they passed the tee verb (the later put must not reach them)
+			if !res.OK() || bad != "" || docs > 1 || strings.Join(got, ",") != "1|x|1,2|x|4,3|x|9" {
 				w.Violation(fmt.Sprintf("tee-verb[%s]:%s", f.name, label), fmt.Sprintf("tee file holds %v (documents=%d %s) %s", got, docs, bad, res.Err), rp)
 			}
 			w.Count("tee_verb_cases", 1)
